@@ -350,6 +350,112 @@ def random_grammar(rng, max_nts=4, max_alts=3, max_rhs=4, nterm=3, p_empty=0.15,
     return Gram(prods, terms, layout=layout)
 
 
+def layered_grammar(rng, nterm=5):
+    """deeper, mostly acyclic grammars: 5-11 nonterminals in layers (alternatives refer to later nonterminals), unit-rule
+    chains of different lengths joining at shared nonterminals, nullable leaves, the odd guarded direct recursion.
+    Complements `random_grammar` (few nonterminals, dense recursion): lookahead propagation through long closure
+    chains and through several states only shows on this shape."""
+    k = rng.randint(5, 11)
+    nts = ["N%d" % i for i in range(k)]
+    tnames = ["T" + c for c in T_CHARS[:nterm]]
+    prods = []
+    refd = {0}
+    for i, nt in enumerate(nts):
+        later = nts[i + 1:]
+        seen = set()
+        for _ in range(rng.randint(1, 3)):
+            r = rng.random()
+            t, t2 = rng.choice(tnames), rng.choice(tnames)
+            if not later:
+                rhs = [] if r < 0.3 else [t] if r < 0.8 else [t, t2]
+            elif r < 0.35:
+                rhs = [rng.choice(later[:3])]
+            elif r < 0.47:
+                rhs = []
+            elif r < 0.60:
+                rhs = [t, rng.choice(later)]
+            elif r < 0.72:
+                rhs = [rng.choice(later), t]
+            elif r < 0.80:
+                rhs = [t, rng.choice(later), t2]
+            elif r < 0.88:
+                rhs = [rng.choice(later), rng.choice(later)]
+            elif r < 0.94:
+                rhs = [t]
+            elif r < 0.97:
+                rhs = [nt, t]
+            else:
+                rhs = [t, nt]
+            if tuple(rhs) in seen:
+                continue
+            seen.add(tuple(rhs))
+            prods.append((nt, rhs))
+            refd |= {nts.index(x) for x in rhs if x in nts}
+    for j in range(1, k):
+        if j not in refd:
+            i = rng.randrange(max(0, j - 3), j)
+            rhs = [nts[j]] if rng.random() < 0.5 else [rng.choice(tnames), nts[j]]
+            if (nts[i], rhs) not in prods:
+                prods.append((nts[i], rhs))
+    prods.sort(key=lambda p: nts.index(p[0]))
+    used = {s for _, rhs in prods for s in rhs if s in tnames}
+    terms = {t: T_CHARS[T_CHARS.index(t[1])] for t in tnames if t in used}
+    if not terms:
+        terms = {tnames[0]: T_CHARS[0]}
+        prods.append((nts[0], [tnames[0]]))
+    return Gram(prods, terms)
+
+
+def diamond_grammar(rng):
+    """LALR(1)-by-construction family stressing lookahead propagation: 2-3 unit-rule chains of different lengths from the
+    start symbol join at a shared nonterminal, each chain followed by its own terminal; below the join a tail chain ends in
+    a (possibly nullable, possibly recursive) leaf; optional extra contexts reuse a tail nonterminal after a distinct
+    leading terminal (so that LALR merging meets the same cores with other lookaheads)."""
+    tn = ["T" + c for c in T_CHARS]
+    prods = []
+    fresh = iter("N%d" % i for i in range(1, 60))
+    nchains = rng.randint(2, 3)
+    tail_len = rng.randint(1, 5)
+    tail = [next(fresh) for _ in range(tail_len)]
+    leaf = next(fresh)
+    enders = tn[:nchains]            # Ta, Tb, Tc follow the chains
+    lead = tn[3:6]                   # Td, Te, Tf lead the extra contexts
+    leaf_t = tn[6]                   # Tg
+    start_alts = []
+    chains = []
+    for c in range(nchains):
+        ln = rng.randint(1, 6)
+        ch = [next(fresh) for _ in range(ln)]
+        chains.append(ch)
+        start_alts.append([ch[0], enders[c]])
+    for c in range(rng.randint(0, 2)):
+        start_alts.append([lead[c], rng.choice(tail + [leaf]), rng.choice(enders + [tn[7]])])
+    rng.shuffle(start_alts)
+    for a in start_alts:
+        prods.append(("S", a))
+    for ch in chains:
+        join = rng.choice(tail[:2])
+        for a, b in zip(ch, ch[1:] + [join]):
+            prods.append((a, [b]))
+    for a, b in zip(tail, tail[1:] + [leaf]):
+        prods.append((a, [b]))
+    r = rng.random()
+    if r < 0.5:
+        prods += [(leaf, [leaf_t]), (leaf, [])]
+    elif r < 0.7:
+        prods += [(leaf, [leaf_t, leaf]), (leaf, [])]
+    elif r < 0.85:
+        prods += [(leaf, [])]
+    else:
+        prods += [(leaf, [leaf_t])]
+    order = {}
+    for l, _ in prods:
+        order.setdefault(l, len(order))
+    prods.sort(key=lambda p: order[p[0]])
+    used = {s for _, rhs in prods for s in rhs if s in tn}
+    return Gram(prods, {t: t[1] for t in tn if t in used})
+
+
 def annotate(rng, g, p_prod=0.4, p_term=0.2, p_rule=0.1):
     """random disambiguation meta-data on productions, terminals and rules"""
     choices = ["left", "right", "reduce", "shift", "nops", "nopse", "5", "15", "20"]
